@@ -18,3 +18,53 @@ Theorem C06_example_table :
   | PErr _ => False
   end.
 Proof. vm_compute. split; reflexivity. Qed.
+
+From Coq Require Import Sorting.Sorted.
+From CC Require Import Model.LineMapSpec Proofs.LineMapFacts.
+
+(** exactly one table entry per output line, for every run whose files end with a newline
+    (hypotheses found by the proof; each has a refuting Example in Proofs/LineMapFacts.v) *)
+Theorem C06_one_entry_per_line : forall fs fname defs lines p
+  (Hdefs : macros_single_line defs)
+  (Hsingle : inputs_single_line lines fs)
+  (Hterm : physical_lines_terminated lines fs)
+  (Hincl : included_files_closed fs)
+  (Hmain : file_closed lines)
+  (Hrun : run_cpp fs fname defs lines = POk p),
+  entries_match_lines p /\
+  complete (p_out p) = true /\ List.length (p_map p) = count_nl (p_out p).
+Proof. exact one_entry_per_line. Qed.
+
+(** every entry names a real physical line of the file it belongs to and carries the chain of
+    include sites *)
+Theorem C06_entries_have_origin : forall fs fname defs lines p
+  (Hrun : run_cpp fs fname defs lines = POk p),
+  Forall (origin fs fname None lines) (rev (p_map p)).
+Proof. exact entries_have_origin. Qed.
+
+(** the compiler's offset->line translation followed by the table lookup lands on an entry of the
+    right output line, which has a true origin *)
+Theorem C06_lookup_finds_an_origin : forall fs fname defs lines p
+  (Hdefs : macros_single_line defs)
+  (Hsingle : inputs_single_line lines fs)
+  (Hterm : physical_lines_terminated lines fs)
+  (Hincl : included_files_closed fs)
+  (Hmain : file_closed lines)
+  (Hrun : run_cpp fs fname defs lines = POk p),
+  exists ls,
+    p_out p = String.concat "" ls /\ Forall full_line ls /\
+    List.length ls = List.length (p_map p) /\
+    forall k l off,
+      nth_error ls k = Some l -> 1 <= off <= String.length l - 1 ->
+      offset_to_line (p_out p) (String.length (String.concat "" (firstn k ls)) + off) = k /\
+      exists e, nth_error (rev (p_map p)) k = Some e /\ origin fs fname None lines e.
+Proof. exact lookup_finds_an_origin. Qed.
+
+(** without includes, line numbers strictly increase along the table *)
+Theorem C06_entries_increasing : forall fname defs lines p
+  (Hrun : run_cpp [] fname defs lines = POk p),
+  StronglySorted N.lt (map loc_line (rev (p_map p))).
+Proof. exact entries_increasing. Qed.
+
+(** a spliced logical line is numbered by its last physical line *)
+Definition C06_entry_of_spliced_line := entry_of_spliced_line_in_run.
